@@ -27,6 +27,12 @@ loop evaluated and the top-`count` of loop + prior evaluations; NaN is never
 preferred to a finite score; best reward >= best prior score; same seed =>
 bitwise identical result (re-execution and re-trace); different seeds =>
 different results (the seed is used at all).
+
+Parallel acquisition with trial-padded priors (`PAR_FIRST`, `gen_par_group`):
+score classes that are finite - and best - on the fill values of trial-padding
+rows, prior counts that are / are not a multiple of n_parallel; the bounds
+monitors then show a padding row (or a partial set completed with padding rows)
+that was taken for a prior.
 """
 import functools
 import math
@@ -60,7 +66,19 @@ RULE = ('groups = (strategy in {eagle, eagle with the gp_ucb_pe config, eagle '
         'seed; groups with priors start with the needle planted on the '
         'oldest, the newest and two boundary priors; budgets below one batch, '
         'not a multiple of the batch, just short of the eagle pool and ending '
-        'before the pool is swept. A case is non-trivial unless the score is '
+        'before the pool is swept. Before these groups every shard of the first '
+        'six runs one group of parallel acquisition (n_parallel 2..4) seeded '
+        'with a trial-padded prior array (eagle default / gp_ucb_pe / '
+        'multiplicative / capped, random; categorical-only and mixed layouts): '
+        'the priors are 1..4 complete sets of n_parallel rows, either exactly '
+        'or plus 1..n_parallel-1 further rows while the trial padding leaves '
+        'room for the rows that would complete that partial set; their cases '
+        'follow a fixed list led by `catneg` = a penalty per category choice '
+        'that ignores the continuous features, so that the fill of a '
+        'trial-padding row (NaN, category -1) scores above every valid '
+        'candidate, and by the needle planted on the newest / oldest prior; '
+        'the categorical-indicator, catneg and constant scores do not read the '
+        'real continuous features at all (finite at NaN). A case is non-trivial unless the score is '
         'constant; distinct = hash of (group shape, function class, prior class).')
 ASSUMPTIONS = [
     'reward re-evaluation tolerance: 5e-5 (float32) / 1e-11 (float64) times the '
@@ -99,6 +117,12 @@ ASSUMPTIONS = [
     'the number of priors of a near-pool group is derived from the pool size '
     'and prior_trials_pool_pct of the strategy object under test (read, not '
     'recomputed), so it follows whatever pool the factory really built',
+    'only complete sets of n_parallel consecutive prior rows (oldest first) are '
+    'priors of a parallel call: a trailing partial set is not a reference of '
+    'the not-worse-than-prior oracle, and rows of the trial padding are never '
+    'legitimate candidates (an out-of-range category / NaN coordinate in the '
+    'result is reported with the tag prior-trial-padding-fill when the value is '
+    'the fill of a trial-padded prior array)',
     'the mechanism id of worse-than-prior on eagle names the observable shape '
     'under which the prior was lost: pool size not a multiple of the batch, '
     'more priors than prior slots, trial-padded prior rows exceeding the '
@@ -118,6 +142,10 @@ REQUIRED_COUNTERS = [
     'more_priors_than_pool_slots_cases',
     'pool_ceiling_reached_batch_not_divisor_with_priors_cases',
     'batch_not_divisor_of_100_cases',
+    'parallel_partial_prior_set_trial_padded_cases:eagle',
+    'partial_prior_set_fill_scores_best_cases:eagle',
+    'parallel_exact_prior_sets_trial_padded_cases',
+    'parallel_needle_in_last_complete_prior_set_cases',
 ]
 MIN_DISTINCT = {'quick': 200, 'thorough': 1500}
 
@@ -344,6 +372,74 @@ def gen_group(rng, index, tier):
           'max_pool': max_pool, 'near_pool': offs if pc == 'near-pool' else None}
 
 
+# Parallel acquisition (n_parallel >= 2) seeded with trial-padded priors: the
+# priors are cut into sets of n_parallel rows; a trailing partial set has to be
+# dropped and the trial-padding rows (fill: NaN / -1) never count as priors.
+# These groups run before the ordinary ones (one per shard on the quick tier).
+PAR_FIRST = [
+    # strategy, layout, n_parallel, trial padding, #priors vs sets, count relation
+    ('eagle', 'cat', 2, 'MULTIPLES_OF_10', 'partial', 'one'),
+    ('eagle', 'mixed', 3, 'MULTIPLES_OF_10', 'partial', 'lt'),
+    ('eagle-ucbpe', 'mixed', 2, 'POWERS_OF_2', 'partial', 'one'),
+    ('eagle', 'cat', 3, 'POWERS_OF_2', 'partial', 'gt'),
+    ('eagle', 'mixed', 2, 'MULTIPLES_OF_10', 'exact', 'one'),
+    ('random', 'mixed', 2, 'MULTIPLES_OF_10', 'partial', 'lt'),
+]
+PAR_GI = 1000000          # index space of these groups (rng, replay)
+# (score class, prior class) schedule of a parallel-priors group: `catneg`
+# scores an index outside the categories above every valid candidate and
+# ignores the continuous features, so a fill row taken for a prior wins
+PAR_CASES = [('catneg', 'random'), ('spike', 'opt-last'), ('catneg', 'opt-last'),
+             ('cat', 'corners'), ('spike', 'opt-first'), ('const', 'random'),
+             ('catneg', 'dups'), ('plateau', 'random'), ('mix', 'opt-mid'),
+             ('catneg', 'outside'), ('quad', 'opt-rand'), ('infreg', 'random'),
+             ('nanreg', 'random'), ('corner', 'corners'), ('spike', 'opt-edge'),
+             ('big', 'random'), ('tiny', 'opt-last')]
+
+
+def gen_par_group(rng, k, tier):
+  fixed = PAR_FIRST[k] if k < len(PAR_FIRST) else None
+  strategy = fixed[0] if fixed else rng.choice(
+      ['eagle', 'eagle', 'eagle-ucbpe', 'eagle-mult', 'eagle-cap', 'random'])
+  lay = fixed[1] if fixed else rng.choice(['cat', 'mixed', 'mixed'])
+  cats = [rng.choice([2, 3, 4, 6]) for _ in range(rng.choice([1, 2, 3]))]
+  ncont = 0 if lay == 'cat' else rng.choice([1, 2, 3])
+  npar = fixed[2] if fixed else rng.choice([2, 2, 3, 4])
+  padt = fixed[3] if fixed else rng.choice(PADS[1:])
+  rel = fixed[4] if fixed else rng.choice(['partial', 'partial', 'exact'])
+  crel = fixed[5] if fixed else rng.choice(['one', 'lt', 'eq', 'gt'])
+  padf = 'NONE' if fixed else rng.choice(PADS)
+  batch = rng.choice([5, 10])
+  nfeat = ncont + len(cats)
+  exponent = UCBPE_EXPONENT if strategy == 'eagle-ucbpe' else 1.2
+  max_pool = max(6, raw_pool_size(nfeat) - rng.choice([0, 1, 3])) if (
+      strategy == 'eagle-cap') else 0
+  pool = eagle_pool_size(nfeat, batch, exponent, max_pool)
+  max_evals = max(pool, rng.choice([60, 100, 200]))
+  if rng.random() < 0.4:
+    max_evals += rng.randint(1, batch - 1)
+  count = {'one': 1, 'lt': rng.randint(2, batch - 1), 'eq': batch,
+           'gt': batch + rng.randint(1, batch + 3)}[crel]
+  count = min(count, max_evals)
+  # 1..4 complete sets; `partial`: plus 1..n_parallel-1 further priors, and the
+  # trial-padded array has room for at least one more set of n_parallel rows
+  n_prior = None
+  for _ in range(50):
+    sets = rng.randint(1, 4)
+    m = sets * npar + (rng.randint(1, npar - 1) if rel == 'partial' else 0)
+    if padded_dim(m, padt) // npar > m // npar:
+      n_prior = m
+      break
+  if n_prior is None:
+    n_prior = npar + (1 if rel == 'partial' else 0)
+  return {'strategy': strategy, 'ncont': ncont, 'cats': cats, 'padf': padf,
+          'padt': padt, 'batch': batch, 'max_evals': max_evals,
+          'use_fori': True, 'n_parallel': npar, 'count': count,
+          'n_prior': n_prior, 'x64': (not fixed) and rng.random() < 0.25,
+          'mode': 'jit', 'bounds': rng.choice(['unit', 'wide', 'log', 'int']),
+          'max_pool': max_pool, 'near_pool': None, 'sched': 'parallel-priors'}
+
+
 def group_shape(g):
   """Abstract shape of a group for distinctness hashing."""
   total = ((g['max_evals'] - 1) // g['batch'] + 1) * g['batch']
@@ -355,7 +451,9 @@ def group_shape(g):
           0 if not g['n_prior'] else 3 if g.get('near_pool') else (
               1 if g['n_prior'] <= 6 else 2),
           g['x64'], g['mode'], g['max_evals'] < 100, g['max_evals'] < b,
-          g['max_evals'] % b != 0, bool(g.get('max_pool'))]
+          g['max_evals'] % b != 0, bool(g.get('max_pool'))] + (
+              [g['sched'], g['n_prior'] % max(1, g['n_parallel']) != 0]
+              if g.get('sched') else [])
 
 
 # ---------------------------------------------------------------------------
@@ -455,6 +553,8 @@ def build_env(g):
     env.log.append((tag, np.array(c), np.array(z), np.array(cm), np.array(zm),
                     np.array(s)))
 
+  real_cont = np.arange(env.ncp) < g['ncont']
+
   def score(params, x, seed=None):
     del seed
     c = x.continuous.padded_array
@@ -462,6 +562,9 @@ def build_env(g):
     cm = x.continuous.is_missing[-1]
     zm = x.categorical.is_missing[-1]
     c0 = jnp.where(cm, jnp.zeros_like(c), c)
+    # score classes that depend on the categorical choices only (usec == 0) do
+    # not look at the real continuous features at all, whatever they hold
+    c0 = jnp.where(real_cont & (params['usec'] < 0.5), jnp.zeros_like(c0), c0)
     s = (-jnp.sum(params['wq'] * (c0 - params['cq']) ** 2, axis=-1)
          + jnp.sum(params['wl'] * c0, axis=-1))
     onehot = z[..., None] == jnp.arange(env.maxcat)
@@ -552,6 +655,12 @@ def gen_params(env, fn_class, nrng):
         T[k, int(nrng.integers(size))] = 1.0
       else:
         T[k, :size] = nrng.uniform(-1.0, 1.0, size=size) * scale
+  if fn_class == 'catneg':
+    # a penalty per category choice: every valid choice scores below 0, so an
+    # index outside the categories (one-hot of nothing, e.g. the trial-padding
+    # fill -1) scores above every valid candidate
+    for k, size in enumerate(g['cats']):
+      T[k, :size] = -nrng.uniform(0.2, 1.0, size=size)
   if fn_class == 'plateau':
     step = float(nrng.choice([0.05, 0.25, 1.0]))
     if nk:
@@ -565,7 +674,8 @@ def gen_params(env, fn_class, nrng):
       k = int(nrng.integers(nk))
       if g['cats'][k] > 1:
         Tbad[k, int(nrng.integers(g['cats'][k]))] = 1.0
-  A = 0.0 if fn_class == 'cat' else 0.37 * scale
+  A = 0.0 if fn_class in ('cat', 'catneg') else 0.37 * scale
+  usec = 0.0 if fn_class in ('cat', 'catneg', 'const') else 1.0
   if fn_class == 'const':
     A = 0.5
   if fn_class == 'spike':
@@ -581,7 +691,8 @@ def gen_params(env, fn_class, nrng):
   p = {'wq': wq, 'cq': cq, 'wl': wl, 'T': T, 'Tbad': Tbad, 'e0': e0,
        'A': np.asarray(A), 'step': np.asarray(step), 'thr': np.asarray(thr),
        'badval': np.asarray(badval), 'sc': sc, 'Ts': Ts,
-       'sr2': np.asarray(sr2), 'sv': np.asarray(sv), 'snk': np.asarray(nk)}
+       'sr2': np.asarray(sr2), 'sv': np.asarray(sv), 'snk': np.asarray(nk),
+       'usec': np.asarray(usec)}
   return {k: np.asarray(v, dtype=f) for k, v in p.items()}
 
 
@@ -598,6 +709,8 @@ def np_score_points(env, p, c, z):
   n, nk = g['ncont'], len(g['cats'])
   P = {k: np.asarray(v, dtype=np.float64) for k, v in p.items()}
   c = np.asarray(c, dtype=np.float64)
+  if float(P.get('usec', 1.0)) < 0.5:
+    c = np.zeros_like(c)          # the score ignores the continuous features
   z = np.asarray(z)
   s = (-np.sum(P['wq'][:n] * (c - P['cq'][:n]) ** 2, axis=-1)
        + np.sum(P['wl'][:n] * c, axis=-1))
@@ -881,6 +994,14 @@ def check_result(rep, env, case, p, prior_c, prior_z, res, log, prior_raw=None):
   if is_placeholder.any():
     ctx.count('placeholder_rows_seen', int(is_placeholder.sum()))
 
+  # priors handed over in a trial-padded array: rows beyond the real priors hold
+  # the converter's fill (NaN continuous, -1 categorical) and are not priors
+  prior_rows_padded = has_prior and (
+      padded_dim(prior_c.shape[0], g['padt']) > prior_c.shape[0])
+  fill_tag = ''
+  if prior_rows_padded:
+    fill_tag = ':prior-trial-padding-fill' + (
+        ':partial-parallel-set' if prior_c.shape[0] % P else '')
   # -- 4. continuous features in the unit cube ----------------------------------
   bounds_ok = True
   if n:
@@ -893,6 +1014,8 @@ def check_result(rep, env, case, p, prior_c, prior_z, res, log, prior_raw=None):
       off = real[checked][~inside[checked]]
       kind = 'nan' if np.isnan(off).any() else (
           'above-1' if (off > 1).any() else 'below-0')
+      if np.isnan(off).all():
+        kind += fill_tag
       rep.violation(f'continuous-out-of-unit-cube:{strat}:{kind}',
                     f'{strat}: a returned continuous feature is outside [0,1] '
                     f'({kind})', case,
@@ -914,10 +1037,14 @@ def check_result(rep, env, case, p, prior_c, prior_z, res, log, prior_raw=None):
       ok = (real >= 0) & (real < sizes)
       if not ok.all():
         bounds_ok = False
-        rep.violation(f'categorical-out-of-range:{strat}',
+        # -1 is the fill of trial-padding rows of the prior array
+        tag = fill_tag if (real[~ok] == -1).all() else ''
+        rep.violation(f'categorical-out-of-range:{strat}{tag}',
                       f'{strat}: a returned categorical feature is not in '
-                      '[0, n_categories)', case,
-                      {'features': real[:5], 'sizes': sizes})
+                      f'[0, n_categories) (priors: {prior_c.shape[0] if has_prior else 0}'
+                      f' rows, n_parallel={P})', case,
+                      {'features': real[:5], 'sizes': sizes,
+                       'offending_values': real[~ok][:8]})
   else:
     ctx.count('zero_categorical_layouts')
 
@@ -1237,6 +1364,22 @@ def run_case(rep, env, case, repeat_check=False):
     ctx.count('plateau_cases')
   if g['n_parallel']:
     ctx.count('parallel_cases')
+  par = g['n_parallel'] or 1
+  if par >= 2 and env.n_prior:
+    rows = padded_dim(env.n_prior, g['padt'])
+    if rows > env.n_prior:
+      if env.n_prior % par and rows // par > env.n_prior // par:
+        # a trailing partial set next to trial-padding rows that would complete it
+        ctx.count('parallel_partial_prior_set_trial_padded_cases:' + fam)
+        if case['fn'] == 'catneg':
+          ctx.count('partial_prior_set_fill_scores_best_cases:' + fam)
+      elif env.n_prior % par == 0:
+        ctx.count('parallel_exact_prior_sets_trial_padded_cases')
+        if case['fn'] == 'spike' and case['prior'] == 'opt-last':
+          ctx.count('parallel_needle_in_last_complete_prior_set_cases')
+  if case['fn'] == 'catneg' and env.n_prior and (
+      padded_dim(env.n_prior, g['padt']) > env.n_prior):
+    ctx.count('trial_padding_fill_scores_best_cases')
   if not g['use_fori']:
     ctx.count('python_loop_cases')
   if g['x64']:
@@ -1293,6 +1436,13 @@ def run_group(rep, gi, g, n_cases):
     prior_class = PRIOR_CLASSES[(off // 7 + j + (j // nf) * step) % npc]
     if g['n_prior'] and 1 <= j <= len(LEAD_CASES):
       fn, prior_class = LEAD_CASES[j - 1]
+    if g.get('sched') == 'parallel-priors':
+      # groups whose priors are complete sets start with the needle planted on
+      # the newest prior (a member of the last complete set)
+      exact = g['n_prior'] % g['n_parallel'] == 0
+      fn, prior_class = PAR_CASES[(j + int(exact)) % len(PAR_CASES)]
+    elif g['n_parallel'] and fn == 'cat' and g['cats'] and j % 2:
+      fn = 'catneg'
     case = {'group': g, 'gi': gi, 'fn': fn, 'prior': prior_class, 'k': j,
             'pseed': rng.getrandbits(32), 'seed': rng.getrandbits(30)}
     facts = run_case(rep, env, case, repeat_check=(j % 4 == 0))
@@ -1334,6 +1484,15 @@ def run_shard(ctx):
   rep = Reporter(ctx)
   n_groups = 400 if ctx.tier == 'quick' else 40000
   n_cases = 60 if ctx.tier == 'quick' else 90
+  # parallel acquisition with trial-padded priors: fixed schedule, then random
+  n_par = len(PAR_FIRST) if ctx.tier == 'quick' else 96
+  for k in range(n_par):
+    if not ctx.mine(k):
+      continue
+    if ctx.elapsed() > 0.3 * ctx.budget_s and k >= len(PAR_FIRST):
+      break
+    g = gen_par_group(ctx.rng(PAR_GI + k), k, ctx.tier)
+    run_group(rep, PAR_GI + k, g, 10 if ctx.tier == 'quick' else 34)
   # groups 0..len(FIRST)-1 are the fixed coverage schedule, the rest is random
   for gi in range(n_groups):
     if not ctx.mine(gi):
